@@ -24,7 +24,9 @@ Local Open Scope string_scope.
    end; a continuation still pending at end of file), every text with
      - a backslash anywhere (C-level escapes and backslash-newline splices,
        which the C pass applies before the Fortran cleaner),
-     - a / on a # line (C comments inside directives),
+     - on a # line: a / inside a character constant, or a C block comment
+       still open at the end of the line (C comments closed on their line and
+       // comments on # lines ARE covered),
      - a # that directly follows the leading & of a continuation line,
      - a continuation line of a character literal that holds nothing but
        blanks of that literal.
@@ -52,8 +54,8 @@ Print Assumptions C17_directives_as_C.
 
 (* ... and those are the directive lines of THE C PATH.  The directives-only
    pass and the ordinary C pass (c_file_source as used for .c files) are the
-   same function on every text that has no backslash, no / on a # line, and
-   whose other lines hold no / ' or double quote: *)
+   same function on every text that has no backslash, whose # lines meet the
+   guards above, and whose other lines hold no / ' or double quote: *)
 Theorem C17_directives_only_is_C_scanner :
   forall ls : list pline, cwf ls = true -> inert ls = true -> c_source false ls = c_source true ls.
 Proof. exact c_source_flag. Qed.
@@ -120,10 +122,10 @@ Print Assumptions C17_classification_refuted_backslash.
    holds ! and &, a comment line and a directive inside the continuation, a
    split literal with a doubled quote, a sentinel and an ordinary comment *)
 Definition C17_example : list pline :=
-  lines_of ("x = 'a!&b' // &" ++ nl ++ "  ! note" ++ nl ++ "#ifdef F" ++ nl ++ "  & 'c''d&" ++ nl ++
-            "   &e'" ++ nl ++ "#endif" ++ nl ++ "!$omp barrier" ++ nl ++ "! $omp not" ++ nl).
+  lines_of ("x = 'a!&b' // &" ++ nl ++ "  ! note" ++ nl ++ "#ifdef F /* c */ // d" ++ nl ++ "  & 'c''d&" ++ nl ++
+            "   &e'" ++ nl ++ "#endif /* F */" ++ nl ++ "!$omp barrier" ++ nl ++ "! $omp not" ++ nl).
 Example C17_nonvacuous :
-  wf C17_example = true /\
+  wf C17_example = true /\ cwf C17_example = true /\ inert (mask C17_example) = true /\
   S_lines C17_example = [(1, false); (3, true); (4, false); (5, false); (6, true); (7, false)]%nat /\
   parse_fortran C17_example = Ok [(false, [1]); (true, [3]); (false, [4; 5]); (true, [6]); (false, [7])]%nat.
 Proof. vm_compute. repeat split; reflexivity. Qed.
